@@ -81,6 +81,89 @@ func c17ValidateEval(tier string, _ int) CaseResult {
 	return cr
 }
 
+// c17OptionsEval: the public options. What a client built with WithRetry(cfg) ends up with is the
+// clamped cfg (nothing else: a zero is clamped like any other value), WithSimpleRetry(n) is the
+// defaults with n clamped, and without an option there is no retry configuration.
+func c17OptionsEval(tier string, _ int) CaseResult {
+	cr := CaseResult{Desc: "WithRetry / WithSimpleRetry / no option on the boundary-value grid, for the Streamable and the legacy SSE client constructors", Nontrivial: true}
+	rs, ib, fs, mb := c17Grid(tier)
+	seen := map[string]bool{}
+	n := 0
+	info := mcp.Implementation{Name: "c", Version: "1"}
+	mk := func(kind string, opts ...mcp.ClientOption) *mcp.Client {
+		var c *mcp.Client
+		var err error
+		if kind == "ls" {
+			c, err = mcp.NewSSEClient("http://srv/sse", info, append([]mcp.ClientOption{mcp.WithClientLogger(hx.Nop{})}, opts...)...)
+		} else {
+			c, err = mcp.NewClient("http://srv/mcp", info, append([]mcp.ClientOption{mcp.WithClientLogger(hx.Nop{})}, opts...)...)
+		}
+		if err != nil {
+			cr.Broken = err.Error()
+		}
+		return c
+	}
+	same := func(a, b mcp.VerifRetryConfig) bool {
+		return a == b || (math.IsNaN(a.BackoffFactor) && math.IsNaN(b.BackoffFactor) && a.MaxRetries == b.MaxRetries && a.InitialBackoff == b.InitialBackoff && a.MaxBackoff == b.MaxBackoff)
+	}
+	for _, kind := range []string{"sj", "ls"} {
+		if c := mk(kind); c != nil && mcp.VerifClientRetryConfig(c) != nil {
+			cr.Violations = append(cr.Violations, V("options:retry-without-option:"+kind, "a client built without a retry option has the retry configuration %+v", *mcp.VerifClientRetryConfig(c)))
+		}
+		for _, r := range rs {
+			n++
+			c := mk(kind, mcp.WithSimpleRetry(r))
+			if c == nil {
+				return cr
+			}
+			want := mcp.VerifRetryValidate(mcp.VerifRetryConfig{MaxRetries: r, InitialBackoff: 500 * time.Millisecond, BackoffFactor: 2, MaxBackoff: 8 * time.Second})
+			if got := mcp.VerifClientRetryConfig(c); got == nil || !same(*got, want) {
+				if !seen["simple:"+kind] {
+					seen["simple:"+kind] = true
+					cr.Violations = append(cr.Violations, V("options:simple-retry:"+kind, "WithSimpleRetry(%d) yields %+v, expected the documented defaults with the clamped count: %+v", r, got, want))
+				}
+			}
+			for _, i := range ib {
+				for _, f := range fs {
+					for _, m := range mb {
+						n++
+						in := mcp.RetryConfig{MaxRetries: r, InitialBackoff: i, BackoffFactor: f, MaxBackoff: m}
+						c := mk(kind, mcp.WithRetry(in))
+						if c == nil {
+							return cr
+						}
+						want := mcp.VerifRetryValidate(mcp.VerifRetryConfig{MaxRetries: r, InitialBackoff: i, BackoffFactor: f, MaxBackoff: m})
+						got := mcp.VerifClientRetryConfig(c)
+						if got == nil || !same(*got, want) {
+							field := "other"
+							switch {
+							case got == nil:
+								field = "missing"
+							case got.MaxRetries != want.MaxRetries:
+								field = "max-retries"
+							case got.InitialBackoff != want.InitialBackoff:
+								field = "initial-backoff"
+							case got.MaxBackoff != want.MaxBackoff:
+								field = "max-backoff"
+							case got.BackoffFactor != want.BackoffFactor:
+								field = "factor"
+							}
+							key := "options:with-retry:" + field + ":" + kind
+							if !seen[key] {
+								seen[key] = true
+								cr.Violations = append(cr.Violations, V(key, "WithRetry(%+v) yields %+v, the clamping rule gives %+v", in, got, want))
+							}
+						}
+					}
+				}
+			}
+		}
+	}
+	cr.Trans = n
+	cr.ObsKey = fmt.Sprintf("options grid %d", n)
+	return cr
+}
+
 // ---- classifier -------------------------------------------------------------------------
 
 func c17WantRetryable(status int) bool {
@@ -507,6 +590,7 @@ func c17E2EEval(tier string, i int) CaseResult {
 }
 
 func init() {
+	RegisterEnum(&Enum{Name: "c17/options", Doc: "WithRetry(cfg) = clamp(cfg), WithSimpleRetry(n) = defaults with clamp(n), no option = no retry, on the boundary-value grid for both HTTP client constructors", Count: func(string) int { return 1 }, Eval: c17OptionsEval})
 	RegisterEnum(&Enum{Name: "c17/validate", Doc: "Config.Validate on all 4-tuples of the boundary-value grid: ranges and idempotence", Count: func(string) int { return 1 }, Eval: c17ValidateEval})
 	RegisterEnum(&Enum{Name: "c17/classify", Doc: "IsRetryableError on transport error texts x status 100..599 x bodies + network error texts", Count: func(string) int { return 1 }, Eval: c17ClassifyEval})
 	RegisterEnum(&Enum{Name: "c17/execute", Doc: "retry.Execute on every outcome script up to length MaxRetries+2, four configurations, every cancellation instant, under a virtual clock; reference retry loop",
@@ -518,6 +602,7 @@ func init() {
 		c.Rule = "exhaustive enumeration of configurations (boundary grid), classifier inputs (every status 100..599 in the error texts the transports really produce) and outcome scripts (length <= MaxRetries+2 over success/each status class/each network error) with every cancellation instant; each script is executed on the real retry loop under a virtual clock and compared step by step with a reference retry loop (attempt count, re-attempt condition, exact waits, result); end to end through the Streamable and legacy SSE clients against a scripted server"
 		c.Assume = append(c.Assume, "virtual time: waits are measured exactly on the scheduler's clock", "stdio has no retry option (documented); its 'sent once' is covered by C01's handler-count oracle")
 		c.Enumerate("c17/validate")
+		c.Enumerate("c17/options")
 		c.Enumerate("c17/classify")
 		c.Enumerate("c17/execute")
 		c.Enumerate("c17/e2e")
